@@ -29,11 +29,21 @@ func normCuts(cuts []int, total int) []int {
 type generator struct {
 	r    *mon.Run
 	emit func(*Scenario)
-	idx  int
-	seed uint64
+	idx    int
+	seed   uint64
+	maxOps int
 }
 
 func (g *generator) add(sc Scenario) {
+	// cost bound (a function of the tier only): a scripted peer that would need
+	// more than maxOps writes/reads for one scenario is left to the thorough
+	// tier, except the byte-wise delivery of the three lengths around 64 KiB.
+	if sc.Chunk > 0 && sc.Class != "byte-wise/64k" {
+		total, _ := streamLen(sc.Lens)
+		if total/sc.Chunk > g.maxOps {
+			return
+		}
+	}
 	sc.Idx = g.idx
 	g.idx++
 	if sc.Fill == "" {
@@ -60,9 +70,12 @@ func streamLen(lens []int) (total int, starts []int) {
 // generate emits the deterministic boundary workload first, then the seeded
 // remainder. Case counts depend on the tier only.
 func generate(r *mon.Run, emit func(*Scenario)) int {
-	g := &generator{r: r, emit: emit, seed: uint64(r.Seed)*1_000_003 + 17}
+	g := &generator{r: r, emit: emit, seed: uint64(r.Seed)*1_000_003 + 17, maxOps: r.Pick(20000, 400000)}
 	thorough := r.Thorough()
-	byteWiseMax := r.Pick(0x10002, 0x1FFFF) // largest frame delivered one octet per write
+	for _, L := range []int{0xFFFF, 0x10000, 0x10001} { // one octet per write / per read across the 16-bit edge
+		g.add(Scenario{Kind: "recv", Peer: "pipe", Class: "byte-wise/64k", Lens: []int{L}, Chunk: 1, Cut: -1})
+		g.add(Scenario{Kind: "send", Peer: "pipe", Class: "byte-wise/64k", Lens: []int{L}, Chunk: 1})
+	}
 
 	// ---------- D1 recv: one frame, every segmentation class
 	var d1 []int
@@ -98,9 +111,6 @@ func generate(r *mon.Run, emit func(*Scenario)) int {
 			seg{"header-split+payload-middle", 0, []int{2, 4 + L/2, total - 1}},
 		)
 		for _, c := range []int{1, 2, 3, 5, 7, 1460, 4096, 65536} {
-			if c == 1 && L > byteWiseMax {
-				continue
-			}
 			if c < total {
 				cl := "chunked"
 				if c == 1 {
@@ -181,12 +191,6 @@ func generate(r *mon.Run, emit func(*Scenario)) int {
 		}
 		segs = append(segs, seg{"seq/straddle-tail", 0, c1}, seg{"seq/straddle-mixed", 0, c2})
 		for _, c := range []int{1, 3, 7, 1460} {
-			if c == 1 && total > r.Pick(70000, 400000) {
-				continue
-			}
-			if c < 1460 && c > 1 && total > 300000 {
-				continue
-			}
 			segs = append(segs, seg{"seq/chunked", c, nil})
 		}
 		for _, s := range segs {
@@ -248,9 +252,6 @@ func generate(r *mon.Run, emit func(*Scenario)) int {
 	sendLens = append(sendLens, boundaryLens...)
 	for _, L := range sendLens {
 		for _, c := range []int{0, 1, 3, 4, 5, 1460} {
-			if c == 1 && L > byteWiseMax {
-				continue
-			}
 			cl := "send/read-chunk"
 			if c == 0 {
 				cl = "send/read-big"
@@ -264,7 +265,7 @@ func generate(r *mon.Run, emit func(*Scenario)) int {
 		}
 		if L%50 == 0 || L > 300 {
 			g.add(Scenario{Kind: "send", Peer: "tcp6", Class: "send/read-big", Lens: []int{L}})
-			g.add(Scenario{Kind: "send", Peer: "pipe", Class: "send/fill-zero", Lens: []int{L}, Fill: "zero", Segs: []int{1, 2, 3, 5, 8}})
+			g.add(Scenario{Kind: "send", Peer: "pipe", Class: "send/fill-zero", Lens: []int{L}, Fill: "zero", Segs: []int{1, 2, 3, 5, 8, 4096}})
 			g.add(Scenario{Kind: "send", Peer: "pipe", Class: "send/fill-hdr", Lens: []int{L}, Fill: "hdr", Segs: []int{4, 1000}})
 		}
 	}
@@ -393,6 +394,9 @@ func generate(r *mon.Run, emit func(*Scenario)) int {
 			}
 			cuts = normCuts(cuts, total)
 		}
+		if chunk > 0 && total/chunk > g.maxOps/4 {
+			chunk = 1460
+		}
 		sc := Scenario{Kind: "recv", Peer: drawPeer(), Class: "random/recv", Lens: lens, Fill: drawFill(), Chunk: chunk, Segs: cuts, Gap: gaps[rng.IntN(3)], Cut: -1}
 		if rng.IntN(3) == 0 {
 			sc.Class = "random/recv-cut"
@@ -424,8 +428,12 @@ func generate(r *mon.Run, emit func(*Scenario)) int {
 		case 0:
 		case 1:
 			sc.Chunk = []int{2, 3, 4, 5, 7, 64, 1460, 4096}[rng.IntN(8)]
-			if total, _ := streamLen(lens); total <= 3000 && rng.IntN(3) == 0 {
+			total, _ := streamLen(lens)
+			if total <= 3000 && rng.IntN(3) == 0 {
 				sc.Chunk = 1
+			}
+			if total/sc.Chunk > g.maxOps/4 {
+				sc.Chunk = 1460
 			}
 		default:
 			k := 1 + rng.IntN(6)
